@@ -140,7 +140,7 @@ def pool_return(ctx):
     # COTmrDelete: found => pushed onto the pool (store to Acts dominated by del != 0 and reached on every such path)
     f = 'COTmrDelete'
     g = m.cfg(f)
-    pool = [n for n in g.nodes if n.x is not None and _stores_to(n, ('CO_TMR', 'Acts'))]
+    pool = [n for n in g.nodes if n.x is not None and m.field_stores(n.x, ('CO_TMR', 'Acts'))]
     site = 'COTmrDelete returns the deleted action to the pool'
     if len(pool) != 1:
         ctx.ob(P, 'RF2-tmr-pool', f, site, None)
@@ -154,7 +154,7 @@ def pool_return(ctx):
         if x.k == 'bin' and x.op in ('!=', '==') and const_eval(x.kids[1]) == 0 and strip(x.kids[0]).k == 'ref':
             v = strip(x.kids[0])
             # the variable stored into the pool head
-            for (l, rhs, n) in _stores_to(pn, ('CO_TMR', 'Acts')):
+            for (l, rhs, n) in m.field_stores(pn.x, ('CO_TMR', 'Acts')):
                 r = strip(rhs)
                 if r is not None and r.k == 'ref' and r.ref == v.ref and fa.pol == (x.op == '!='):
                     found_guard = True
@@ -165,7 +165,140 @@ def pool_return(ctx):
         ctx.find(P, 'RF2-tmr-pool', f, 'delete-pool-guard', m.loc(f, pn.line), 'the pool store is not guarded by the found-action test')
 
 
+LINK = ('CO_TMR_ACTION', 'Next')
+TAIL = ('CO_TMR_TIME', 'ActionEnd')
+
+
+def _assigned_vars(node):
+    out = set()
+    if node.x is None:
+        return out
+    for (p, rhs, n) in flow.assigned_paths(node.x):
+        if p is not None and len(p) == 1:
+            out.add(p[0][1])
+    return out
+
+
+def tail_pointer(ctx):
+    """(u) An event's action chain has a head (Action) and a tail pointer (ActionEnd; COTmrInsert appends behind it).
+    Every interior unlink `prev->Next = act->Next` must, when the unlinked action was the last one (act->Next == 0),
+    move the tail pointer to `prev` before prev / act change; every append `tx->ActionEnd->Next = a` must be followed
+    by `tx->ActionEnd = a`.  Otherwise the tail dangles into the free pool and the next action appended to this event
+    is chained behind a free or re-used slot."""
+    m = ctx.m
+    props = ['C08', 'C01', 'C10']
+    n_unlink = n_append = 0
+    for fname in ('COTmrDelete', 'COTmrInsert', 'COTmrProcess', 'COTmrRemove', 'COTmrCreate'):
+        m.need(fname)
+        g = m.cfg(fname)
+        facts = m.facts(fname)
+        for u in g.nodes:
+            if u.x is None:
+                continue
+            for (l, rhs, n) in m.field_stores(u.x, LINK):
+                r = strip(rhs) if rhs is not None else None
+                b = strip(l.kids[0])
+                # interior unlink: X->Next = Y->Next
+                if b.k == 'ref' and r is not None and r.k == 'mem' and r.field == LINK and strip(r.kids[0]).k == 'ref' \
+                        and strip(r.kids[0]).ref != b.ref:
+                    X, Y = b, strip(r.kids[0])
+                    n_unlink += 1
+                    site = '%s: %s' % (m.loc(fname, n), show(n))
+                    bad = _follow(g, u, X, Y, fname, m)
+                    if bad:
+                        ctx.ob(props, 'RF11-tailptr', fname, site, None)
+                        ctx.find(props, 'RF11-tailptr', fname, 'unlink-without-tail-fix', m.loc(fname, n),
+                                 'interior unlink %s: %s; when the unlinked action was the last of the chain the event\'s '
+                                 'ActionEnd keeps pointing at it (a free slot after the delete) and the next action appended '
+                                 'to this event is lost / chained behind a re-used slot' % (show(n), bad))
+                    else:
+                        ctx.ob(props, 'RF11-tailptr', fname, site, 'tail pointer moved to the predecessor when the last action is unlinked')
+                # append behind the tail: T->ActionEnd->Next = a
+                elif b.k == 'mem' and b.field == TAIL and r is not None and r.k == 'ref':
+                    n_append += 1
+                    site = '%s: %s' % (m.loc(fname, n), show(n))
+                    ok = False
+                    seen = set()
+                    st = [t for (t, lab) in u.succ]
+                    fail = None
+                    while st and fail is None:
+                        a = st.pop()
+                        if a in seen:
+                            continue
+                        seen.add(a)
+                        nd = g.nodes[a]
+                        hit = [1 for (l2, rhs2, n2) in (m.field_stores(nd.x, TAIL) if nd.x is not None else ())
+                               if rhs2 is not None and strip(rhs2).k == 'ref' and strip(rhs2).ref == r.ref]
+                        if hit:
+                            ok = True
+                            continue
+                        if nd.kind == 'exit' or r.ref in _assigned_vars(nd):
+                            fail = 'path to line %d without `ActionEnd = %s`' % (nd.line or 0, r.name)
+                            break
+                        st.extend(t for (t, lab) in nd.succ)
+                    if fail or not ok:
+                        ctx.ob(props, 'RF11-tailptr', fname, site, None)
+                        ctx.find(props, 'RF11-tailptr', fname, 'append-without-tail-move', m.loc(fname, n),
+                                 'append %s is not followed by moving ActionEnd to the appended action (%s)' % (show(n), fail))
+                    else:
+                        ctx.ob(props, 'RF11-tailptr', fname, site, 'ActionEnd moved to the appended action')
+    ctx.inst('TMR.interior-unlinks', n_unlink)
+    ctx.inst('TMR.tail-appends', n_append)
+    ctx.require_min(props, 'RF11-tailptr', n_unlink, 2, 'interior unlink sites of the action chain')
+    ctx.require_min(props, 'RF11-tailptr', n_append, 1, 'append sites behind ActionEnd')
+
+
+def _follow(g, u, X, Y, fname, m):
+    """None when every path from the unlink u meets `tail = X` on the (Y->Next == 0) side before X / Y change"""
+    def is_last_test(nd):
+        # returns the edge label on which Y->Next is null, else None
+        if nd.kind != 'br' or nd.x is None:
+            return None
+        x = strip(nd.x)
+        if x.k == 'bin' and x.op in ('==', '!=') and const_eval(x.kids[1], m) == 0:
+            t = strip(x.kids[0])
+            if t.k == 'mem' and t.field == LINK and strip(t.kids[0]).k == 'ref' and strip(t.kids[0]).ref == Y.ref:
+                return x.op == '=='
+        if x.k == 'bin' and x.op in ('==', '!='):
+            a, b = strip(x.kids[0]), strip(x.kids[1])
+            for (p, q) in ((a, b), (b, a)):
+                if p.k == 'mem' and p.field == TAIL and q.k == 'ref' and q.ref == Y.ref:
+                    return x.op == '=='
+        if x.k == 'mem' and x.field == LINK and strip(x.kids[0]).k == 'ref' and strip(x.kids[0]).ref == Y.ref:
+            return False
+        return None
+    seen = set()
+    st = [(t, False) for (t, lab) in u.succ]
+    while st:
+        a, islast = st.pop()
+        if (a, islast) in seen:
+            continue
+        seen.add((a, islast))
+        nd = g.nodes[a]
+        if nd.x is not None:
+            for (l2, rhs2, n2) in m.field_stores(nd.x, TAIL):
+                if islast and rhs2 is not None and strip(rhs2).k == 'ref' and strip(rhs2).ref == X.ref:
+                    break
+            else:
+                l2 = None
+            if l2 is not None:
+                continue          # fixed on this path
+        lab_last = is_last_test(nd)
+        if lab_last is not None:
+            for (t, lab) in nd.succ:
+                if lab == lab_last:
+                    st.append((t, True))
+            continue              # the other edge: the unlinked action was not the last one, nothing to fix
+        av = _assigned_vars(nd)
+        if nd.kind == 'exit' or X.ref in av or Y.ref in av:
+            return 'no `ActionEnd = %s` under `%s->Next == 0` before %s (line %d)' % (
+                X.name, Y.name, 'the function returns' if nd.kind == 'exit' else 'the cursor moves on', nd.line or u.line)
+        st.extend((t, islast) for (t, lab) in nd.succ)
+    return None
+
+
 def run(ctx):
+    tail_pointer(ctx)
     tail_invariant(ctx)
     process_order(ctx)
     pool_return(ctx)
